@@ -119,20 +119,66 @@ def common_prefix(seqs):
     return out
 
 
+class MV(NodeMixin):
+    """node whose _pre_attach can veto (flag set by the harness)"""
+
+    VETO = [None]
+
+    def __init__(self, i):
+        self.i = i
+
+    def _pre_attach(self, parent):
+        if MV.VETO[0] is self:
+            raise RuntimeError("veto")
+
+
+def _check_all(nodes, parent, children, cls, info):
+    n = len(nodes)
+    for i in range(n):
+        exp = definitions(parent, children, i)
+        got, types_ok = observed(nodes, nodes[i], cls is not L)
+        if cls is not L:
+            exp["anchestors"] = exp["ancestors"]
+        if got != exp:
+            d = [k for k in exp if got.get(k) != exp[k]]
+            return dict(info, why="attribute differs from its definition", node=i, attr=d, got=[got[k] for k in d], exp=[exp[k] for k in d])
+        if not types_ok:
+            return dict(info, why="tuple-valued attribute is not a tuple", node=i)
+    anc = [m_path(parent, i)[:-1] for i in range(n)]
+    for i in range(n):
+        if idx_seq(nodes, util.commonancestors(nodes[i])) != anc[i]:
+            return dict(info, why="commonancestors(single)", nodes=[i])
+        for j in range(n):
+            e2 = common_prefix([anc[i], anc[j]])
+            g2 = util.commonancestors(nodes[i], nodes[j])
+            if type(g2) is not tuple or idx_seq(nodes, g2) != e2:
+                return dict(info, why="commonancestors(pair)", nodes=[i, j], got=idx_seq(nodes, g2), exp=e2)
+            for k in range(n):
+                e3 = common_prefix([anc[i], anc[j], anc[k]])
+                g3 = idx_seq(nodes, util.commonancestors(nodes[i], nodes[j], nodes[k]))
+                if g3 != e3:
+                    return dict(info, why="commonancestors(triple)", nodes=[i, j, k], got=g3, exp=e3)
+    return None
+
+
 def c04_body(cfg):
     """C04: every navigation attribute of every node, util.left/rightsibling, util.commonancestors of every
-    pair and triple == definition over the model; optionally right after one symbolic mutation."""
+    pair and triple == definition over the CURRENT parent/children links: checked on the built forest and - when
+    cfg['move'] - again right after one symbolic structural call, which may also be a move vetoed by the moved
+    node's _pre_attach hook (the node then stays detached): values must never lag behind the links."""
     cls = CLS[cfg.get("cls", "mixin")]
     n = nondet_int(1, cfg["N"], "n")
     pv = pick_parent_vector(n, forest=True)
     parent, children = model_from_pv(pv)
     move = None
+    veto = False
     if cfg.get("move") and nondet_bool("after_move"):
         kind = nondet_int(0, 2, "kind")
         a = nondet_int(0, n - 1, "a")
         if kind == 0:
             b = nondet_int(-1, n - 1, "b")
             move = ("parent", a, None if b < 0 else b)
+            veto = cls is M and nondet_bool("vetoed_by_pre_attach")
         elif kind == 1:
             x0 = nondet_int(0, n - 1, "x0")
             x1 = nondet_int(0, n - 1, "x1")
@@ -140,48 +186,36 @@ def c04_body(cfg):
         else:
             move = ("del", a)
     with concrete_region():
-        nodes = [cls(i) for i in range(n)]
+        rcls = MV if (cls is M and cfg.get("move")) else cls
+        nodes = [rcls(i) for i in range(n)]
         for i, p in enumerate(pv):
             if p >= 0:
                 nodes[i].parent = nodes[p]
-        if move is not None:
-            out, parent, children = F.apply_functional(parent, children, move, "light")
-            if out != "ok":
-                return True
+        info = {"pv": pv, "move": move, "vetoed": veto}
+        if n >= 3:
+            nontrivial()
+        r = _check_all(nodes, parent, children, cls, dict(info, phase="before"))
+        if r or move is None:
+            return r or True
+        MV.VETO[0] = nodes[move[1]] if veto else None
+        try:
             if move[0] == "parent":
                 nodes[move[1]].parent = None if move[2] is None else nodes[move[2]]
             elif move[0] == "children":
                 nodes[move[1]].children = [nodes[x] for x in move[2]]
             else:
                 del nodes[move[1]].children
-        if n >= 3:
-            nontrivial()
-        for i in range(n):
-            exp = definitions(parent, children, i)
-            got, types_ok = observed(nodes, nodes[i], cls is not L)
-            if cls is not L:
-                exp["anchestors"] = exp["ancestors"]
-            if got != exp:
-                d = [k for k in exp if got.get(k) != exp[k]]
-                return {"why": "attribute differs from its definition", "pv": pv, "move": move, "node": i, "attr": d,
-                        "got": [got[k] for k in d], "exp": [exp[k] for k in d]}
-            if not types_ok:
-                return {"why": "tuple-valued attribute is not a tuple", "pv": pv, "node": i}
-        anc = [m_path(parent, i)[:-1] for i in range(n)]
-        for i in range(n):
-            if idx_seq(nodes, util.commonancestors(nodes[i])) != anc[i]:
-                return {"why": "commonancestors(single)", "pv": pv, "move": move, "nodes": [i]}
-            for j in range(n):
-                e2 = common_prefix([anc[i], anc[j]])
-                g2 = util.commonancestors(nodes[i], nodes[j])
-                if type(g2) is not tuple or idx_seq(nodes, g2) != e2:
-                    return {"why": "commonancestors(pair)", "pv": pv, "move": move, "nodes": [i, j], "got": idx_seq(nodes, g2), "exp": e2}
-                for k in range(n):
-                    e3 = common_prefix([anc[i], anc[j], anc[k]])
-                    g3 = idx_seq(nodes, util.commonancestors(nodes[i], nodes[j], nodes[k]))
-                    if g3 != e3:
-                        return {"why": "commonancestors(triple)", "pv": pv, "move": move, "nodes": [i, j, k], "got": g3, "exp": e3}
-    return True
+        except Exception:
+            pass  # refused or vetoed: whatever the links are now, the derived values must describe them
+        finally:
+            MV.VETO[0] = None
+        # the model of the second round is read off the two primitive links (parent / children) themselves
+        from .common import real_map
+
+        parent, children = real_map(nodes)
+        if F.invariant(parent, children) is not None:
+            return True  # inconsistent links are C01's subject
+        return _check_all(nodes, parent, children, cls, dict(info, phase="after")) or True
 
 
 def c15_move_body(cfg):
